@@ -223,22 +223,141 @@ Proof.
   apply IH. now rewrite rerun_step_tail, tail_defs, rerun_start_defs.
 Qed.
 
+Lemma empty_rerun s r : ended' s -> forall x, dq (rerun_start s r) x = [].
+Proof.
+  intros ((G & _) & Hh & _ & Q0) x.
+  assert (Ex : dq s x = []).
+  { destruct (N.eq_dec x 0) as [Hz|Hz]; [subst x; exact Q0|]. apply (hold_La s [] Hh x Hz).
+    unfold startable. destruct (G x) as [E|E]; now rewrite E. }
+  destruct r as [l [t|]|l t ds]; cbn [rerun_start]; try exact Ex.
+  change (dq (set_sched (set_tyme s t) 0%N {| doers := ds; deeds := [] |}) x = []).
+  destruct (N.eq_dec x 0) as [Hz|Hz]; [subst x; now rewrite dq_set_same|rewrite dq_set_other by exact Hz; exact Ex].
+Qed.
+
 (* whatever holds of every tail started from a ready state holds of the last run of every history *)
 Lemma last_run (P : st T -> Prop) cycles fuel asyn (p : prog T) :
   W (p_defs p) ->
-  (forall tk s0 ds limit, ready s0 -> defs s0 = p_defs p -> oof (tail tk cycles fuel s0 ds limit) = false ->
-                          P (tail tk cycles fuel s0 ds limit)) ->
+  (forall tk s0 ds limit, ready s0 -> (forall x, dq s0 x = []) -> defs s0 = p_defs p ->
+                          oof (tail tk cycles fuel s0 ds limit) = false -> P (tail tk cycles fuel s0 ds limit)) ->
   forall h, oof (run_hist cycles fuel asyn p h) = false -> P (run_hist cycles fuel asyn p h).
 Proof.
   intros Hw HP h O. destruct (last_or_nil h) as [->|(h' & r & ->)].
   - unfold run_hist in *. cbn [fold_left] in *. fold (first_run cycles fuel asyn p) in *. rewrite first_run_eq in *.
-    rewrite do_run_tail in *. apply HP; [now apply ready_init|reflexivity|exact O].
+    rewrite do_run_tail in *. apply HP; [now apply ready_init|intro x; apply init_deeds|reflexivity|exact O].
   - rewrite run_hist_snoc in *. rewrite rerun_step_tail in *.
     assert (O' : oof (run_hist cycles fuel asyn p h') = false).
     { apply tail_oof_back in O. destruct r as [l [t|]|l t ds]; exact O. }
     pose proof (run_hist_ended cycles fuel asyn p h' Hw O') as En.
-    apply HP; [now apply ready_rerun| |exact O].
+    apply HP; [now apply ready_rerun|now apply empty_rerun| |exact O].
     rewrite rerun_start_defs. apply run_hist_defs.
+Qed.
+
+(* ---------- 2. forced-exit order and membership for every run of a history ---------- *)
+
+Lemma tail_final_close tk cycles fuel s0 ds limit :
+  ready s0 -> oof (tail tk cycles fuel s0 ds limit) = false -> final_close (tail tk cycles fuel s0 ds limit).
+Proof.
+  intros (Hh & Hh2 & _). unfold tail.
+  destruct (enter_own tk fuel s0 0%N ds) as [s1 r] eqn:E.
+  destruct (hold_all tk fuel) as (_ & _ & _ & _ & _ & _ & Ieo & _).
+  destruct (hold2_all tk fuel) as (_ & _ & _ & _ & _ & _ & Heo & _).
+  assert (I1 : I s1 []) by (eapply Ieo; [right; exact Hh|now left|exact E]).
+  assert (H1 : I2 s1 []) by (eapply Heo; [right; exact Hh2|exact E]).
+  destruct r as [t| |k|].
+  - apply cycle_final; assumption.
+  - apply cycle_final; assumption.
+  - apply close_end2; [now right|exact I1|exact H1].
+  - intro O. destruct (fuel_all tk fuel) as (_ & _ & _ & K & _). rewrite (K _ _ _ _ E) in O. discriminate.
+Qed.
+
+Theorem run_hist_final_close cycles fuel asyn (p : prog T) (h : list rerun) :
+  W (p_defs p) -> oof (run_hist cycles fuel asyn p h) = false -> final_close (run_hist cycles fuel asyn p h).
+Proof.
+  intros Hw. apply (last_run final_close cycles fuel asyn p Hw).
+  intros tk s0 ds limit R _ _ O. now apply tail_final_close.
+Qed.
+
+Lemma tail_final_sorted tk cycles fuel s0 ds limit :
+  ready s0 -> (forall x, dq s0 x = []) -> WX (defs s0) ->
+  oof (tail tk cycles fuel s0 ds limit) = false -> final_sorted (tail tk cycles fuel s0 ds limit).
+Proof.
+  intros (Hh & Hh2 & _) Em Wx O. unfold tail in *.
+  destruct (enter_own tk fuel s0 0%N ds) as [s1 r] eqn:E.
+  destruct (hold_all tk fuel) as (_ & _ & _ & _ & _ & _ & Ieo & _).
+  destruct (hold2_all tk fuel) as (_ & _ & _ & _ & _ & _ & Heo & _).
+  destruct (ob_all tk fuel) as (_ & _ & _ & Bco & _).
+  assert (I1 : I s1 []) by (eapply Ieo; [right; exact Hh|now left|exact E]).
+  assert (H1 : I2 s1 []) by (eapply Heo; [right; exact Hh2|exact E]).
+  assert (O1 : oof s1 = false).
+  { destruct r as [t| |k|]; try exact O; try (apply Bco in O; exact O); apply cycle_oof_back in O; exact O. }
+  assert (G0 : GoodA s0) by (split; intro x; rewrite Em; [constructor|intros []]).
+  destruct (sorta_all tk fuel) as (_ & Seo).
+  pose proof (Seo s0 [] 0%N ds s1 r Wx Hh Hh2 (or_introl eq_refl) G0 E O1) as [S1 M1].
+  assert (SF : SrtF (epos s1) s1) by (intro x; rewrite (canon_mf _ (M1 x)); apply S1).
+  assert (X1 : XF (defs s1)).
+  { destruct (frame_all tk fuel) as (_ & _ & _ & _ & _ & _ & Feo & _).
+    rewrite (steps_defs s0 s1); [exact (proj2 Wx)|]. eapply Feo; [apply st_refl|exact E]. }
+  assert (G1 : GoodB (epos s1) s1) by (split; [exact SF|intros x _ Nm; now destruct (Nm (M1 x))]).
+  destruct r as [t| |k|].
+  - apply (cycle_sorted _ _ (epos s1)); [exact I1|exact H1|exact X1|exact G1|apply M1|reflexivity|exact O].
+  - apply (cycle_sorted _ _ (epos s1)); [exact I1|exact H1|exact X1|exact G1|apply M1|reflexivity|exact O].
+  - apply (close_end3 _ _ _ _ (epos s1)); [now right|exact I1|exact H1|exact SF|reflexivity|exact O].
+  - destruct (fuel_all tk fuel) as (_ & _ & _ & K & _). rewrite (K _ _ _ _ E) in O. discriminate.
+Qed.
+
+Theorem run_hist_exit_order cycles fuel asyn (p : prog T) (h : list rerun) :
+  WX (p_defs p) -> oof (run_hist cycles fuel asyn p h) = false -> final_sorted (run_hist cycles fuel asyn p h).
+Proof.
+  intros Wx. apply (last_run final_sorted cycles fuel asyn p (proj1 Wx)).
+  intros tk s0 ds limit R Em D O. apply tail_final_sorted; [exact R|exact Em|now rewrite D|exact O].
+Qed.
+
+(* membership: every run transforms the doers lists it starts with by one log *)
+Lemma tail_members tk d cycles fuel s0 ds limit : HD d s0 -> MR d s0 (tail tk cycles fuel s0 ds limit).
+Proof.
+  intro Hd. unfold tail. destruct (enter_own tk fuel s0 0%N ds) as [s1 r] eqn:E.
+  destruct (mr_all tk d fuel) as (_ & _ & _ & _ & _ & _ & Ieo & _).
+  assert (M1 : MR d s0 s1) by (eapply Ieo; eassumption).
+  assert (Hd1 : HD d s1).
+  { eapply hd_same; [|exact Hd]. destruct (frame_all tk fuel) as (_ & _ & _ & _ & _ & _ & Feo & _).
+    apply steps_defs. eapply Feo; [apply st_refl|exact E]. }
+  eapply mr_trans; [exact M1|].
+  destruct r as [t| |k|].
+  - eapply mr_trans; [|apply cycle_mr; eapply hd_same; [|exact Hd1]; reflexivity]. apply mr_same. reflexivity.
+  - eapply mr_trans; [|apply cycle_mr; eapply hd_same; [|exact Hd1]; reflexivity]. apply mr_same. reflexivity.
+  - apply mr_close_end.
+  - apply mr_refl.
+Qed.
+
+Lemma tail_members_all tk d cycles fuel s0 ds limit : defs s0 = d -> MRS d s0 (tail tk cycles fuel s0 ds limit).
+Proof.
+  intro Dd. unfold tail. destruct (enter_own tk fuel s0 0%N ds) as [s1 r] eqn:E.
+  destruct (mrs_all tk d fuel) as (_ & _ & _ & _ & _ & _ & Ieo & _).
+  assert (M1 : MRS d s0 s1) by (eapply Ieo; eassumption).
+  assert (D1 : defs s1 = d).
+  { rewrite <- Dd. destruct (frame_all tk fuel) as (_ & _ & _ & _ & _ & _ & Feo & _).
+    apply steps_defs. eapply Feo; [apply st_refl|exact E]. }
+  eapply mrs_trans; [exact M1|].
+  destruct r as [t| |k|].
+  - eapply mrs_trans; [|apply cycle_mrs; exact D1]. apply mrs_same. reflexivity.
+  - eapply mrs_trans; [|apply cycle_mrs; exact D1]. apply mrs_same. reflexivity.
+  - apply mrs_close_end.
+  - apply mrs_refl.
+Qed.
+
+(* every rerun of a history (the first run: do_run_members / do_run_members_all) *)
+Theorem run_hist_members cycles fuel asyn (p : prog T) (h : list rerun) (r : rerun) :
+  NE0 (p_defs p) ->
+  MR (p_defs p) (rerun_start (run_hist cycles fuel asyn p h) r) (run_hist cycles fuel asyn p (h ++ [r])).
+Proof.
+  intro N. rewrite run_hist_snoc, rerun_step_tail. apply tail_members.
+  split; [rewrite rerun_start_defs; apply run_hist_defs|exact N].
+Qed.
+
+Theorem run_hist_members_all cycles fuel asyn (p : prog T) (h : list rerun) (r : rerun) :
+  MRS (p_defs p) (rerun_start (run_hist cycles fuel asyn p h) r) (run_hist cycles fuel asyn p (h ++ [r])).
+Proof.
+  rewrite run_hist_snoc, rerun_step_tail. apply tail_members_all. rewrite rerun_start_defs. apply run_hist_defs.
 Qed.
 
 End Hist.
